@@ -1,3 +1,4 @@
+#![cfg_attr(target_pointer_width = "32", allow(arithmetic_overflow))] // the zero-sized-frame and 2^32 probes exist only in the 64-bit stages
 //! C20 — windowing yields the documented window shape and chunk schedule.
 //!
 //! Window functions against 0.5(1 - cos 2 pi p) on a dense grid (range, symmetry, end points);
@@ -386,6 +387,56 @@ fn main() {
             _ => windower_all(&mut rep, m["l"].parse().unwrap(), m["b"].parse().unwrap(), m["h"].parse().unwrap()),
         }
         flush_tl(&mut rep);
+        finish(&cli, rep, t0);
+    }
+    if cli.stage == "miri32" {
+        // A 32-BIT build of dasp, executed by the interpreter: usize (frame counts, bin, hop) is 32
+        // bits wide. Interpreter-sized: small (L, bin, hop) triples, hops around the 8/16/24/31-bit
+        // boundaries and the top of the 32-bit range, short Window iterators; dealt to the shards.
+        rep.note(format!("usize::BITS = {} in this stage", usize::BITS));
+        if usize::BITS == 32 {
+            rep.hit("ran_with_32_bit_usize");
+        }
+        rep.oblige("ran_with_32_bit_usize", 1);
+        rep.oblige("windower_triples_32_bit", 1);
+        rep.oblige("windower_wide_hops_32_bit", 1);
+        let mut item = 0u64;
+        let mut mine = || {
+            item += 1;
+            item % cli.nshards == cli.shard
+        };
+        for n in [2usize, 3, 4, 7, 16, 33] {
+            if mine() {
+                check_window_iter(&mut rep, n);
+                flush_tl(&mut rep);
+            }
+        }
+        let lmax = cli.t(6usize, 9usize);
+        for l in 0..=lmax {
+            for b in 2..=l + 2 {
+                for h in 1..=l + 2 {
+                    if mine() {
+                        windower_all(&mut rep, l, b, h);
+                        rep.hit("windower_triples_32_bit");
+                        flush_tl(&mut rep);
+                    }
+                }
+            }
+        }
+        for l in [0usize, 3, 5] {
+            for b in [2usize, l, l + 1] {
+                if b < 2 {
+                    continue;
+                }
+                for h in vmon::edge::wide_usizes(2) {
+                    if h > 300 && mine() {
+                        windower_all(&mut rep, l, b, h);
+                        rep.hit("windower_wide_hops_32_bit");
+                        flush_tl(&mut rep);
+                    }
+                }
+            }
+        }
         finish(&cli, rep, t0);
     }
     rep.oblige("window_function_grid", 1);
